@@ -10,7 +10,7 @@ from aioftp.common import ThrottleStreamIO
 from harness import judge, report, simnet, vloop
 
 KINDS = ["", "plain", "-dash", " lead", "123start", "250 looks final", "250-looks cont", "251 other final", "251-other cont",
-         "12 two", "é ж", "a  b", "x" * 40, "٣٣٣ d", "250", "250-"]
+         "12 two", "é ж", "a  b", "x" * 40, "٣٣٣ d", "250", "250-", "€uro", "名前 x", "\U0001F600 smile", "aфb", "ab€"]
 
 
 def chars(s):
@@ -52,6 +52,8 @@ class Rig:
                 self.results.append({"ok": True, "code": chars(str(code)), "info": [chars(x) for x in info]})
             except errors.StatusCodeError as e:
                 self.results.append({"ok": False, "code": chars(str(e.expected_codes[0])), "info": [chars(x) for x in e.info]})
+            except Exception as e:  # any other exception out of the decoder is never what the specification says
+                self.results.append({"ok": False, "code": chars("EXC"), "info": [chars(type(e).__name__)]})
 
     def send_replies(self, replies):
         async def w():
@@ -119,7 +121,7 @@ def run(tier, seed):
         rig = Rig(encoding)
         try:
             for code, lines, lst in gen_replies(tier, rng):
-                if encoding != "utf-8" and any(("٣" in l or "é" in l) for l in lines):
+                if encoding != "utf-8" and any(not all(ord(ch) < 128 or "а" <= ch <= "я" for ch in l) for l in lines):
                     continue
                 second = ("220", [rng.choice(["ok", "", "-x", "220 y"])], False) if rng.random() < 0.7 else ("226", ["a", "226 b", "c"], True)
                 replies = [(code, lines, lst), second]
